@@ -16,6 +16,11 @@ import z3
 import os as _os0
 
 SOLVER_TIMEOUT_MS = int(_os0.environ.get('PYVC_SOLVER_TIMEOUT_MS', '10000'))
+# z3's incremental sequence solver is unstable (the same query that a fresh solver answers in
+# milliseconds can time out after push/pop history): the incremental solver gets a short budget and
+# an `unknown` is re-asked of fresh, non-incremental solvers with the full budget and two seeds
+_INCR_BAD: dict = {}  # unit -> number of paths on which the incremental solver gave up
+INCR_TIMEOUT_MS = int(_os0.environ.get('PYVC_INCR_TIMEOUT_MS', '2500'))
 
 
 class PathEnd(Exception):
@@ -98,9 +103,12 @@ class Ctx:
         self.labels: List[str] = []
         self.new_prefixes: List[List[int]] = []
         self.solver = z3.Solver()
-        self.solver.set("timeout", SOLVER_TIMEOUT_MS)
+        self.solver.set("timeout", INCR_TIMEOUT_MS)
         # `fast` holds only the assertions without string/sequence terms: it over-approximates the
         # path condition, so "unsat" from it is conclusive and "sat" merely means "explore it"
+        self.fresh_retries = 0
+        self.incr_bad = False
+        self._last_fresh = None
         self.fast = z3.Solver()
         self.fast.set("timeout", SOLVER_TIMEOUT_MS)
         self.n_assumed = 0
@@ -194,7 +202,13 @@ class Ctx:
         if _os1.environ.get("PYVC_DUMP_LAST"):
             with open(_os1.environ["PYVC_DUMP_LAST"], "w") as f:
                 f.write(f"; extra={extra}\n{self.solver.to_smt2()}\n")
-        r = self.solver.check(*extra)
+        if self.incr_bad or _INCR_BAD.get(self.unit, 0) >= 2:
+            r = self._fresh_check(extra)
+        else:
+            r = self.solver.check(*extra)
+            if r == z3.unknown:
+                self._mark_incr_bad()
+                r = self._fresh_check(extra)
         dt = (time.perf_counter() - t0) * 1000
         self.solver_ms += dt
         import os as _os
@@ -202,6 +216,27 @@ class Ctx:
         if dt > 1500 and _os.environ.get("PYVC_DUMP_SLOW"):
             with open(_os.environ["PYVC_DUMP_SLOW"], "a") as f:
                 f.write(f"; ---- slow check {dt:.0f} ms result {r} extra={extra}\n{self.solver.to_smt2()}\n")
+        return r
+
+    def _mark_incr_bad(self) -> None:
+        if not self.incr_bad:
+            self.incr_bad = True
+            _INCR_BAD[self.unit] = _INCR_BAD.get(self.unit, 0) + 1
+
+    def _fresh_check(self, extra) -> z3.CheckSatResult:
+        r = z3.unknown
+        for seed, budget in ((0, SOLVER_TIMEOUT_MS), (7, 2 * SOLVER_TIMEOUT_MS)):
+            s = z3.Solver()
+            s.set("timeout", budget)
+            s.set("random_seed", seed)
+            s.add(*self.solver.assertions())
+            for e in extra:
+                s.add(e)
+            self._last_fresh = s
+            r = s.check()
+            self.fresh_retries += 1
+            if r != z3.unknown:
+                break
         return r
 
     def check_fast(self, *extra) -> z3.CheckSatResult:
@@ -302,12 +337,21 @@ class Ctx:
             extra = self.known_region(name)
             for e in extra:
                 self.solver.add(e)
-        r = self.solver.check()
+        if self.incr_bad or _INCR_BAD.get(self.unit, 0) >= 2:
+            r = self._fresh_check(())
+            model_solver = self._last_fresh
+        else:
+            r = self.solver.check()
+            model_solver = self.solver
+            if r == z3.unknown:
+                self._mark_incr_bad()
+                r = self._fresh_check(())
+                model_solver = self._last_fresh
         model = None
         smt2 = None
         if r == z3.sat:
             try:
-                m = self.solver.model()
+                m = model_solver.model()
                 model = self._model_inputs(m)
             except z3.Z3Exception:
                 model = {}
@@ -316,6 +360,11 @@ class Ctx:
                 smt2 = self.solver.to_smt2()
             except Exception:
                 smt2 = None
+        import os as _os2
+
+        if _os2.environ.get("PYVC_DUMP_SLOW") and (time.perf_counter() - t0) > 1.5:
+            with open(_os2.environ["PYVC_DUMP_SLOW"], "a") as f:
+                f.write(f"; ---- slow prove {name} {(time.perf_counter() - t0)*1000:.0f} ms result {r} path={' '.join(self.labels)}\n{self.solver.to_smt2()}\n")
         self.solver.pop()
         ms = (time.perf_counter() - t0) * 1000
         self.solver_ms += ms
@@ -408,7 +457,7 @@ def explore(unit: str, run: Callable[[Ctx], None], region=None, work=None, split
     assumptions: set = set()
     import os as _os
 
-    budget = float(_os.environ.get("PYVC_UNIT_BUDGET", "240"))
+    budget = float(_os.environ.get("PYVC_UNIT_BUDGET", "480"))
     trace = _os.environ.get("PYVC_TRACE")
     while work:
         if time.perf_counter() - t0 > budget:
